@@ -24,7 +24,8 @@ use crate::BinOperator;
 
 fn declare() {
     use crate::instruction::verif_gate::*;
-    scalar_ops_only();
+    allow_binops(b(crate::BinOperator::Subtract) | b(crate::BinOperator::AssignAdd) | b(crate::BinOperator::AssignSubtract) | b(crate::BinOperator::LShift) | b(crate::BinOperator::RShift) | b(crate::BinOperator::Divide) | b(crate::BinOperator::Modulo));
+    allow_unops(u(crate::unary_operator::UnaryOperator::Indirection));
     allow_mask((1 << K_VARIABLE) | (1 << K_BINOPERATION) | (1 << K_UNARYOPERATION) | (1 << K_BLOCK) | (1 << K_IFELSE) | (1 << K_SET) | (1 << K_ARRAYREPEAT) | (1 << K_ARRAY) | (1 << K_TUPLE) | (1 << K_TUPLEACCESS));
 }
 fn iws(i: Instruction) -> InstructionWithStr {
